@@ -158,10 +158,15 @@ theorem lookup_cons_ne (dp : DocsPositions) (k id : ID) (p : DocPos) (h : id ≠
 theorem lookup_cons_self (dp : DocsPositions) (k : ID) (p : DocPos) : List.lookup k ((k, p) :: dp) = some p := by
   simp [List.lookup]
 
-theorem setMultiple_fresh (dp : DocsPositions) (ids : List ID) (ps : List DocPos)
-    (hnd : ids.Nodup) (hl : ps.length = ids.length)
-    (hfresh : ∀ id p q, (id, p) ∈ ids.zip ps → dp.lookup id = some q → q ≠ p) :
-    (setMultiple dp ids ps).2 = ids.filter (fun id => (dp.lookup id).isNone) ∧
+/-- `SetMultiple` on a list in which every occurrence of an id carries the same position (a document and its nested
+metas), when `good id` says whether the offered position of `id` is acceptable for the map as it is *now*: absent, or
+saved with exactly that position.  Every occurrence of a good id is appended, no occurrence of another one. -/
+theorem setMultiple_spec (good : ID → Bool) (dp : DocsPositions) (ids : List ID) (ps : List DocPos)
+    (hl : ps.length = ids.length)
+    (hfun : ∀ id p p', (id, p) ∈ ids.zip ps → (id, p') ∈ ids.zip ps → p = p')
+    (hgood : ∀ id p, (id, p) ∈ ids.zip ps →
+      (dp.lookup id = none → good id = true) ∧ (∀ q, dp.lookup id = some q → (q = p ↔ good id = true))) :
+    (setMultiple dp ids ps).2 = ids.filter good ∧
     ∀ id, (setMultiple dp ids ps).1.lookup id = (dp.lookup id).or ((ids.zip ps).lookup id) := by
   induction ids generalizing dp ps with
   | nil => simp [setMultiple]
@@ -169,48 +174,65 @@ theorem setMultiple_fresh (dp : DocsPositions) (ids : List ID) (ps : List DocPos
     cases ps with
     | nil => simp at hl
     | cons p ps =>
-      have hk := (List.nodup_cons.mp hnd).1
-      have hnd' := (List.nodup_cons.mp hnd).2
       have hl' : ps.length = ids.length := by simpa using hl
+      have hfun' : ∀ id p1 p2, (id, p1) ∈ ids.zip ps → (id, p2) ∈ ids.zip ps → p1 = p2 := by
+        intro id p1 p2 h1 h2
+        exact hfun id p1 p2 (List.mem_cons_of_mem _ h1) (List.mem_cons_of_mem _ h2)
+      have hk := hgood k p (by simp)
       cases hlk : dp.lookup k with
       | none =>
-        have hf' : ∀ id p' q, (id, p') ∈ ids.zip ps → List.lookup id ((k, p) :: dp) = some q → q ≠ p' := by
-          intro id p' q hm hq
-          have hne : id ≠ k := fun h => hk (h ▸ (List.of_mem_zip hm).1)
-          rw [lookup_cons_ne dp k id p hne] at hq
-          exact hfresh id p' q (List.mem_cons_of_mem _ hm) hq
-        obtain ⟨i1, i2⟩ := ih ((k, p) :: dp) ps hnd' hl' hf'
-        simp only [setMultiple, hlk]
-        refine ⟨?_, ?_⟩
-        · simp only [i1, List.filter_cons, hlk, Option.isNone_none, if_true]
-          congr 1
-          apply List.filter_congr
-          intro id hid
-          have hne : id ≠ k := fun h => hk (h ▸ hid)
-          rw [lookup_cons_ne dp k id p hne]
-        · intro id
-          rw [i2 id]
+        have hgk : good k = true := hk.1 hlk
+        have hg' : ∀ id p', (id, p') ∈ ids.zip ps →
+            (List.lookup id ((k, p) :: dp) = none → good id = true) ∧
+            (∀ q, List.lookup id ((k, p) :: dp) = some q → (q = p' ↔ good id = true)) := by
+          intro id p' hm
           by_cases hne : id = k
           · subst hne
-            simp [hlk, List.lookup]
+            have hpp : p = p' := hfun id p p' (by simp) (List.mem_cons_of_mem _ hm)
+            rw [lookup_cons_self]
+            refine ⟨by simp, ?_⟩
+            intro q hq
+            simp only [Option.some.injEq] at hq
+            subst hq
+            simp [hpp, hgk]
           · rw [lookup_cons_ne dp k id p hne]
-            have : (id == k) = false := by simpa using hne
-            simp [List.lookup, this]
+            exact hgood id p' (List.mem_cons_of_mem _ hm)
+        obtain ⟨i1, i2⟩ := ih ((k, p) :: dp) ps hl' hfun' hg'
+        simp only [setMultiple, hlk]
+        refine ⟨by simp [i1, List.filter_cons, hgk], ?_⟩
+        intro id
+        rw [i2 id]
+        by_cases hne : id = k
+        · subst hne
+          simp [lookup_cons_self, hlk, List.lookup]
+        · rw [lookup_cons_ne dp k id p hne]
+          have : (id == k) = false := by simpa using hne
+          simp [List.lookup, this]
       | some q =>
-        have hqp : q ≠ p := hfresh k p q (by simp) hlk
-        have hf' : ∀ id p' q, (id, p') ∈ ids.zip ps → dp.lookup id = some q → q ≠ p' := by
-          intro id p' q hm hq
-          exact hfresh id p' q (List.mem_cons_of_mem _ hm) hq
-        obtain ⟨i1, i2⟩ := ih dp ps hnd' hl' hf'
-        simp only [setMultiple, hlk, hqp, if_false]
-        refine ⟨?_, ?_⟩
-        · simp [i1, hlk]
-        · intro id
-          rw [i2 id]
+        have hg' : ∀ id p', (id, p') ∈ ids.zip ps →
+            (dp.lookup id = none → good id = true) ∧ (∀ q, dp.lookup id = some q → (q = p' ↔ good id = true)) :=
+          fun id p' hm => hgood id p' (List.mem_cons_of_mem _ hm)
+        obtain ⟨i1, i2⟩ := ih dp ps hl' hfun' hg'
+        have hlook : ∀ id, (dp.lookup id).or (((k :: ids).zip (p :: ps)).lookup id) = (dp.lookup id).or ((ids.zip ps).lookup id) := by
+          intro id
           by_cases hne : id = k
           · subst hne; simp [hlk]
           · have : (id == k) = false := by simpa using hne
             simp [List.lookup, this]
+        by_cases hqp : q = p
+        · have hgk : good k = true := (hk.2 q hlk).mp hqp
+          simp only [setMultiple, hlk, hqp, if_true]
+          refine ⟨by simp [i1, List.filter_cons, hgk], ?_⟩
+          intro id
+          rw [i2 id, hlook id]
+        · have hgk : good k = false := by
+            cases hg : good k with
+            | false => rfl
+            | true => exact absurd ((hk.2 q hlk).mpr hg) hqp
+          simp only [setMultiple, hlk, hqp, if_false]
+          refine ⟨by simp [i1, List.filter_cons, hgk], ?_⟩
+          intro id
+          rw [i2 id, hlook id]
 
 /-! ## facts about the specification view `docsOf` -/
 
@@ -231,6 +253,113 @@ theorem docsFrom_block (b : Nat) (ms : List Meta) (off : Nat) (last : DocPos) (h
     rcases hd with hd | hd
     · subst hd; rfl
     · exact ih _ _ (fun m hm => hs m (List.mem_cons_of_mem _ hm)) d hd
+
+/-- the first meta of the bulk is a document, not a nested meta (otherwise `AppendMeta` panics) -/
+def FirstReal : List Meta → Prop
+  | [] => True
+  | m :: _ => m.size ≠ 0
+
+theorem docsFrom_block' (b : Nat) (ms : List Meta) (off : Nat) (last : DocPos) (h : last.1 = b ∨ FirstReal ms) :
+    ∀ d ∈ docsFrom b ms off last, d.2.1.1 = b := by
+  induction ms generalizing off last with
+  | nil => simp [docsFrom]
+  | cons m ms ih =>
+    intro d hd
+    by_cases hm : m.size = 0
+    · have hl : last.1 = b := by
+        rcases h with h | h
+        · exact h
+        · exact absurd hm h
+      simp only [docsFrom, hm, if_true, List.mem_cons] at hd
+      rcases hd with hd | hd
+      · subst hd; exact hl
+      · exact ih _ _ (Or.inl hl) d hd
+    · simp only [docsFrom, hm, if_false, List.mem_cons] at hd
+      rcases hd with hd | hd
+      · subst hd; rfl
+      · exact ih _ _ (Or.inl rfl) d hd
+
+theorem nestedOK_firstReal (seen : List ID) (ms : List Meta) (h : NestedOK seen none ms) : FirstReal ms := by
+  cases ms with
+  | nil => trivial
+  | cons m ms =>
+    intro hm
+    have := h.1
+    simp [hm] at this
+
+/-- in a well-nested bulk all metas of one id sit at one position -/
+theorem docsFrom_functional (b : Nat) (ms : List Meta) (seen : List ID) (cur : Option ID) (off : Nat) (last : DocPos)
+    (h : NestedOK seen cur ms) :
+    (∀ d ∈ docsFrom b ms off last, d.1 ∈ seen → cur = some d.1 ∧ d.2.1 = last) ∧
+    (∀ d ∈ docsFrom b ms off last, ∀ d' ∈ docsFrom b ms off last, d.1 = d'.1 → d.2.1 = d'.2.1) := by
+  induction ms generalizing seen cur off last with
+  | nil => simp [docsFrom]
+  | cons m ms ih =>
+    obtain ⟨h1, h2⟩ := h
+    by_cases hm : m.size = 0
+    · simp only [hm, if_true] at h1
+      obtain ⟨i1, i2⟩ := ih (m.id :: seen) (some m.id) off last h2
+      simp only [docsFrom, hm, if_true]
+      refine ⟨?_, ?_⟩
+      · intro d hd hs
+        rcases List.mem_cons.mp hd with rfl | hd
+        · exact ⟨h1, rfl⟩
+        · have := i1 d hd (List.mem_cons_of_mem _ hs)
+          exact ⟨by rw [h1, this.1], this.2⟩
+      · intro d hd d' hd' hdd
+        rcases List.mem_cons.mp hd with rfl | hd <;> rcases List.mem_cons.mp hd' with rfl | hd'
+        · rfl
+        · have := i1 d' hd' (by rw [← hdd]; simp)
+          exact this.2.symm
+        · have := i1 d hd (by rw [hdd]; simp)
+          exact this.2
+        · exact i2 d hd d' hd' hdd
+    · simp only [hm, if_false] at h1
+      obtain ⟨i1, i2⟩ := ih (m.id :: seen) (some m.id) (off + m.size + 4) (b, off) h2
+      simp only [docsFrom, hm, if_false]
+      refine ⟨?_, ?_⟩
+      · intro d hd hs
+        rcases List.mem_cons.mp hd with rfl | hd
+        · exact absurd hs h1
+        · have := (i1 d hd (List.mem_cons_of_mem _ hs)).1
+          simp only [Option.some.injEq] at this
+          exact absurd (this ▸ hs) h1
+      · intro d hd d' hd' hdd
+        rcases List.mem_cons.mp hd with rfl | hd <;> rcases List.mem_cons.mp hd' with rfl | hd'
+        · rfl
+        · have := i1 d' hd' (by rw [← hdd]; simp)
+          exact this.2.symm
+        · have := i1 d hd (by rw [hdd]; simp)
+          exact this.2
+        · exact i2 d hd d' hd' hdd
+
+theorem mem_zip_map {α β γ} (f : α → β) (g : α → γ) (l : List α) (x : β) (y : γ) (h : (x, y) ∈ (l.map f).zip (l.map g)) :
+    ∃ d ∈ l, f d = x ∧ g d = y := by
+  induction l with
+  | nil => simp at h
+  | cons a l ih =>
+    simp only [List.map_cons, List.zip_cons_cons, List.mem_cons, Prod.mk.injEq] at h
+    rcases h with ⟨h1, h2⟩ | h
+    · exact ⟨a, by simp, h1.symm, h2.symm⟩
+    · obtain ⟨d, hd, hh⟩ := ih h
+      exact ⟨d, List.mem_cons_of_mem _ hd, hh⟩
+
+/-- pairwise distinct ids and non-empty documents: the bulk is well nested (it has no nested metas at all) -/
+theorem nestedOK_of_distinct (ms : List Meta) (seen : List ID) (cur : Option ID) (hnd : (ms.map (·.id)).Nodup)
+    (hs : ∀ m ∈ ms, m.size ≠ 0) (hseen : ∀ m ∈ ms, m.id ∉ seen) : NestedOK seen cur ms := by
+  induction ms generalizing seen cur with
+  | nil => trivial
+  | cons m ms ih =>
+    simp only [List.map_cons, List.nodup_cons] at hnd
+    refine ⟨by simp [hs m (by simp), hseen m (by simp)], ?_⟩
+    apply ih _ _ hnd.2 (fun x hx => hs x (List.mem_cons_of_mem _ hx))
+    intro x hx hmem
+    rcases List.mem_cons.mp hmem with h | h
+    · exact hnd.1 (h ▸ List.mem_map_of_mem hx)
+    · exact hseen x (List.mem_cons_of_mem _ hx) h
+
+theorem bulkOK_of_distinct (ms : List Meta) (hnd : (ms.map (·.id)).Nodup) (hs : ∀ m ∈ ms, m.size ≠ 0) : BulkOK ms :=
+  nestedOK_of_distinct ms [] none hnd hs (by simp)
 
 /-- restricting the specification view by a predicate on ids = the view of the restricted bulk, as far as ids and
 tokens are concerned (positions are those of the full bulk) -/
@@ -278,16 +407,21 @@ theorem rview_ids (c : Collector) (h : WF c) : (rview c).map (·.1) = c.ids := b
 /-- the documents of a bulk the fraction does not hold yet -/
 def kept (a : Active) (ms : List Meta) : List Meta := ms.filter fun m => decide (m.id ∉ docIds a)
 
-/-- invariant of the index state of an active fraction -/
-structure AInv (a : Active) : Prop where
+/-- invariant of the index state of an active fraction (nested metas allowed: an id may own several LIDs) -/
+structure AInvN (a : Active) : Prop where
   dom : ∀ id, (a.dp.lookup id).isSome ↔ id ∈ docIds a
   blk : ∀ id p, a.dp.lookup id = some p → p.1 < a.blocks.length
-  nodup : (docIds a).Nodup
   total : a.docsTotal = (docIds a).length
   ids1 : 1 ≤ a.ids.length
 
-theorem ainv_empty : AInv Active.empty := by
-  refine ⟨?_, ?_, ?_, ?_, ?_⟩ <;> simp [Active.empty, docIds]
+/-- ... and, when no bulk carried nested metas, every id owns exactly one LID -/
+structure AInv (a : Active) : Prop extends AInvN a where
+  nodup : (docIds a).Nodup
+
+theorem ainvN_empty : AInvN Active.empty := by
+  refine ⟨?_, ?_, ?_, ?_⟩ <;> simp [Active.empty, docIds]
+
+theorem ainv_empty : AInv Active.empty := ⟨ainvN_empty, by simp [Active.empty, docIds]⟩
 
 theorem lookup_zip_isSome (ids : List ID) (ps : List DocPos) (id : ID) (hl : ps.length = ids.length) :
     ((ids.zip ps).lookup id).isSome ↔ id ∈ ids := by
@@ -334,8 +468,7 @@ theorem minmax_filter (c : Collector) (app : List ID) : MinMaxOk (filter c app) 
   unfold MinMaxOk filter
   simp [List.foldl_map]
 
-theorem dedupCollector_spec (a : Active) (ms : List Meta) (hA : AInv a) (h1 : (ms.map (·.id)).Nodup)
-    (hs : ∀ m ∈ ms, m.size ≠ 0) :
+theorem dedupCollector_spec (a : Active) (ms : List Meta) (hA : AInvN a) (hb : BulkOK ms) :
     CInv (dedupCollector a ms).1 ∧
     (rview (dedupCollector a ms).1).map (fun d => (d.1, d.2.2))
       = (docsOf a.blocks.length (kept a ms)).map (fun d => (d.1, d.2.2)) ∧
@@ -348,18 +481,35 @@ theorem dedupCollector_spec (a : Active) (ms : List Meta) (hA : AInv a) (h1 : (m
   obtain ⟨hcinv, hrv, hids, hcnt, -⟩ := hc
   have hpos : (collect a.blocks.length ms).positions = (docsOf a.blocks.length ms).map (·.2.1) := by
     rw [← hrv, rview_positions _ hcinv.1]
-  have hfresh : ∀ id p q, (id, p) ∈ (collect a.blocks.length ms).ids.zip (collect a.blocks.length ms).positions →
-      a.dp.lookup id = some q → q ≠ p := by
-    intro id p q hm hq hqp
+  have hids' : (collect a.blocks.length ms).ids = (docsOf a.blocks.length ms).map (·.1) := by
+    rw [hids, docsOf, docsFrom_ids]
+  have hblk := docsFrom_block' a.blocks.length ms 0 (0, 0) (Or.inr (nestedOK_firstReal [] ms hb))
+  have hfn := (docsFrom_functional a.blocks.length ms [] none 0 (0, 0) hb).2
+  have hfun : ∀ id p p', (id, p) ∈ (collect a.blocks.length ms).ids.zip (collect a.blocks.length ms).positions →
+      (id, p') ∈ (collect a.blocks.length ms).ids.zip (collect a.blocks.length ms).positions → p = p' := by
+    intro id p p' h1 h2
+    rw [hids', hpos] at h1 h2
+    obtain ⟨d, hd, e1, e2⟩ := mem_zip_map _ _ _ _ _ h1
+    obtain ⟨d', hd', e1', e2'⟩ := mem_zip_map _ _ _ _ _ h2
+    rw [← e2, ← e2']
+    exact hfn d hd d' hd' (e1.trans e1'.symm)
+  have hgood : ∀ id p, (id, p) ∈ (collect a.blocks.length ms).ids.zip (collect a.blocks.length ms).positions →
+      (a.dp.lookup id = none → (a.dp.lookup id).isNone = true) ∧
+      (∀ q, a.dp.lookup id = some q → (q = p ↔ (a.dp.lookup id).isNone = true)) := by
+    intro id p hm
+    refine ⟨fun h => by simp [h], ?_⟩
+    intro q hq
     have hp : p ∈ (collect a.blocks.length ms).positions := (List.of_mem_zip hm).2
     rw [hpos] at hp
     obtain ⟨d, hd, rfl⟩ := List.mem_map.mp hp
-    have := docsFrom_block a.blocks.length ms 0 (0, 0) hs d hd
-    have := hA.blk id q hq
+    have h1 := hblk d hd
+    have h2 := hA.blk id q hq
+    simp only [hq, Option.isNone_some, Bool.false_eq_true, iff_false]
+    intro hqp
     subst hqp
     omega
-  have hset := setMultiple_fresh a.dp (collect a.blocks.length ms).ids (collect a.blocks.length ms).positions
-    (by rw [hids]; exact h1) hcinv.1.1 hfresh
+  have hset := setMultiple_spec (fun id => (a.dp.lookup id).isNone) a.dp (collect a.blocks.length ms).ids
+    (collect a.blocks.length ms).positions hcinv.1.1 hfun hgood
   obtain ⟨happ, hlook⟩ := hset
   -- the appended ids are the new ones
   have happ' : (setMultiple a.dp (collect a.blocks.length ms).ids (collect a.blocks.length ms).positions).2
@@ -451,10 +601,9 @@ def toksOf (ms : List Meta) : List (List Bytes) := ms.map fun m => m.tokens.map 
 def minOf (ids : List ID) : Nat := ids.foldl (fun m id => if id.1 < m then id.1 else m) maxU64
 def maxOf (ids : List ID) : Nat := ids.foldl (fun m id => if id.1 > m then id.1 else m) 0
 
-/-- **one `appendWorker` iteration, extensionally**: on a fraction satisfying the invariant a bulk with pairwise
-distinct ids has exactly the effect of its not-yet-known documents; the invariant is kept -/
-theorem indexBulk_spec (a : Active) (ms : List Meta) (hA : AInv a) (h1 : (ms.map (·.id)).Nodup)
-    (hs : ∀ m ∈ ms, m.size ≠ 0) :
+/-- **one `appendWorker` iteration, extensionally**: on a fraction satisfying the invariant a well-nested bulk has
+exactly the effect of its not-yet-known documents (with their nested metas); the invariant is kept -/
+theorem indexBulk_specN (a : Active) (ms : List Meta) (hA : AInvN a) (hb : BulkOK ms) :
     (indexBulk a ms).ids = a.ids ++ (kept a ms).map (·.id) ∧
     (∀ t, queue (indexBulk a ms) t
         = queue a t ++ postingsT (toksOf (kept a ms)) (List.range' a.ids.length (kept a ms).length) t) ∧
@@ -464,8 +613,8 @@ theorem indexBulk_spec (a : Active) (ms : List Meta) (hA : AInv a) (h1 : (ms.map
     (indexBulk a ms).blocks = a.blocks ++ [docBlock ms 0] ∧
     (∀ id, (indexBulk a ms).dp.lookup id
       = (a.dp.lookup id).or (((ms.map (·.id)).zip ((docsOf a.blocks.length ms).map (·.2.1))).lookup id)) ∧
-    AInv (indexBulk a ms) := by
-  obtain ⟨hcinv, hrv, hids, hcnt, hmm, hdp⟩ := dedupCollector_spec a ms hA h1 hs
+    AInvN (indexBulk a ms) := by
+  obtain ⟨hcinv, hrv, hids, hcnt, hmm, hdp⟩ := dedupCollector_spec a ms hA hb
   have hidsEq : (indexBulk a ms).ids = a.ids ++ (kept a ms).map (·.id) := by
     show a.ids ++ (dedupCollector a ms).1.ids = _
     rw [hids]
@@ -502,7 +651,7 @@ theorem indexBulk_spec (a : Active) (ms : List Meta) (hA : AInv a) (h1 : (ms.map
       constructor
       · rintro ⟨m, ⟨hm, hn⟩, rfl⟩; exact ⟨⟨m, hm, rfl⟩, hn⟩
       · rintro ⟨⟨m, hm, rfl⟩, hn⟩; exact ⟨m, ⟨hm, hn⟩, rfl⟩
-    refine ⟨?_, ?_, ?_, ?_, ?_⟩
+    refine ⟨?_, ?_, ?_, ?_⟩
     · intro id
       rw [hdp' id, hdoc, List.mem_append, hkm]
       have h2 := lookup_zip_isSome (ms.map (·.id)) ((docsOf a.blocks.length ms).map (·.2.1)) id hzl
@@ -531,23 +680,44 @@ theorem indexBulk_spec (a : Active) (ms : List Meta) (hA : AInv a) (h1 : (ms.map
         simp only [hl, Option.none_or] at hp
         have hm := lookup_zip_mem _ _ _ _ hp
         obtain ⟨d, hd, rfl⟩ := List.mem_map.mp hm
-        have := docsFrom_block a.blocks.length ms 0 (0, 0) hs d hd
+        have := docsFrom_block' a.blocks.length ms 0 (0, 0) (Or.inr (nestedOK_firstReal [] ms hb)) d hd
         simp only [List.length_cons, List.length_nil]
         omega
-    · rw [hdoc, List.nodup_append]
-      refine ⟨hA.nodup, ?_, ?_⟩
-      · have : ((kept a ms).map (·.id)).Sublist (ms.map (·.id)) := by
-          unfold kept
-          exact List.Sublist.map _ List.filter_sublist
-        exact List.Nodup.sublist this h1
-      · intro x hx y hy hxy
-        subst hxy
-        exact ((hkm x).mp hy).2 hx
     · show a.docsTotal + (dedupCollector a ms).1.docsCounter = _
       rw [hcnt, hdoc, hA.total]; simp
     · rw [hidsEq, List.length_append]
       have := hA.ids1
       omega
+
+/-- the same for bulks with pairwise distinct ids and no nested metas: additionally every id keeps a single LID -/
+theorem indexBulk_spec (a : Active) (ms : List Meta) (hA : AInv a) (h1 : (ms.map (·.id)).Nodup)
+    (hs : ∀ m ∈ ms, m.size ≠ 0) :
+    (indexBulk a ms).ids = a.ids ++ (kept a ms).map (·.id) ∧
+    (∀ t, queue (indexBulk a ms) t
+        = queue a t ++ postingsT (toksOf (kept a ms)) (List.range' a.ids.length (kept a ms).length) t) ∧
+    (indexBulk a ms).docsTotal = a.docsTotal + (kept a ms).length ∧
+    (indexBulk a ms).from_ = (if a.from_ > minOf ((kept a ms).map (·.id)) then minOf ((kept a ms).map (·.id)) else a.from_) ∧
+    (indexBulk a ms).to = (if a.to < maxOf ((kept a ms).map (·.id)) then maxOf ((kept a ms).map (·.id)) else a.to) ∧
+    (indexBulk a ms).blocks = a.blocks ++ [docBlock ms 0] ∧
+    (∀ id, (indexBulk a ms).dp.lookup id
+      = (a.dp.lookup id).or (((ms.map (·.id)).zip ((docsOf a.blocks.length ms).map (·.2.1))).lookup id)) ∧
+    AInv (indexBulk a ms) := by
+  obtain ⟨e1, e2, e3, e4, e5, e6, e7, e8⟩ := indexBulk_specN a ms hA.toAInvN (bulkOK_of_distinct ms h1 hs)
+  refine ⟨e1, e2, e3, e4, e5, e6, e7, e8, ?_⟩
+  have hdoc : docIds (indexBulk a ms) = docIds a ++ (kept a ms).map (·.id) := by
+    show (indexBulk a ms).ids.drop 1 = _
+    rw [e1, docIds_append a _ hA.ids1]
+  rw [hdoc, List.nodup_append]
+  refine ⟨hA.nodup, ?_, ?_⟩
+  · have : ((kept a ms).map (·.id)).Sublist (ms.map (·.id)) := by
+      unfold kept
+      exact List.Sublist.map _ List.filter_sublist
+    exact List.Nodup.sublist this h1
+  · intro x hx y hy hxy
+    subst hxy
+    simp only [kept, List.mem_map, List.mem_filter, decide_eq_true_eq] at hy
+    obtain ⟨m, ⟨-, hn⟩, rfl⟩ := hy
+    exact hn hx
 
 /-! ## histories -/
 
@@ -642,6 +812,113 @@ theorem run_norepFrom (a a' : Active) (seen : List ID) (h : List (List Meta)) (h
       (fun b' hb' => hd b' (List.mem_cons_of_mem _ hb')) (fun b' hb' => hs b' (List.mem_cons_of_mem _ hb'))
     simp only [run, norepFrom, List.foldl_cons, hb'] at this ⊢
     exact this
+
+/-! ## histories with nested metas -/
+
+theorem nestedOK_of_none (seen : List ID) (c : Option ID) (ms : List Meta) (h : NestedOK seen none ms) :
+    NestedOK seen c ms := by
+  cases ms with
+  | nil => trivial
+  | cons m ms =>
+    refine ⟨?_, h.2⟩
+    have h1 := h.1
+    by_cases hm : m.size = 0
+    · simp [hm] at h1
+    · simpa [hm] using h1
+
+/-- dropping whole documents (a predicate on ids) keeps a bulk well nested -/
+theorem nestedOK_filter (q : ID → Bool) (seen seen' : List ID) (cur : Option ID) (ms : List Meta)
+    (hsub : ∀ x ∈ seen', x ∈ seen) (h : NestedOK seen cur ms) :
+    NestedOK seen' (cur.filter q) (ms.filter fun m => q m.id) := by
+  induction ms generalizing seen seen' cur with
+  | nil => trivial
+  | cons m ms ih =>
+    obtain ⟨h1, h2⟩ := h
+    by_cases hq : q m.id = true
+    · simp only [List.filter_cons, hq, if_true]
+      have ih' := ih (m.id :: seen) (m.id :: seen') (some m.id)
+        (by intro x hx; rcases List.mem_cons.mp hx with rfl | hx
+            · simp
+            · exact List.mem_cons_of_mem _ (hsub x hx)) h2
+      have e : (some m.id).filter q = some m.id := by simp [Option.filter, hq]
+      rw [e] at ih'
+      refine ⟨?_, ih'⟩
+      by_cases hm : m.size = 0
+      · simp only [hm, if_true] at h1 ⊢
+        rw [h1]; simp [Option.filter, hq]
+      · simp only [hm, if_false] at h1 ⊢
+        exact fun hx => h1 (hsub _ hx)
+    · simp only [List.filter_cons, hq, Bool.false_eq_true, if_false]
+      have ih' := ih (m.id :: seen) seen' (some m.id) (fun x hx => List.mem_cons_of_mem _ (hsub x hx)) h2
+      have e : (some m.id).filter q = none := by simp [Option.filter, hq]
+      rw [e] at ih'
+      exact nestedOK_of_none _ _ _ ih'
+
+theorem bulkOK_kept (a : Active) (b : List Meta) (hb : BulkOK b) : BulkOK (kept a b) := by
+  have := nestedOK_filter (fun id => decide (id ∉ docIds a)) [] [] none b (by simp) hb
+  simpa [BulkOK, kept, Option.filter] using this
+
+theorem run_invN (a : Active) (h : List (List Meta)) (hA : AInvN a) (hg : GoodBulks h) : AInvN (run a h) := by
+  induction h generalizing a with
+  | nil => simpa [run] using hA
+  | cons b h ih =>
+    have hb := indexBulk_specN a b hA (hg b (by simp))
+    exact ih (indexBulk a b) hb.2.2.2.2.2.2.2 (fun b' hb' => hg b' (List.mem_cons_of_mem _ hb'))
+
+/-- the lock-step argument of `run_norepFrom` for well-nested bulks (an id may own several LIDs: one per meta) -/
+theorem run_norepFromN (a a' : Active) (seen : List ID) (h : List (List Meta)) (hA : AInvN a) (hA' : AInvN a')
+    (hsame : Same a a') (hseen : ∀ id, id ∈ seen ↔ id ∈ docIds a) (hg : GoodBulks h) :
+    Same (run a h) (run a' (norepFrom seen h)) ∧
+    docIds (run a h) = docIds a ++ allIds (norepFrom seen h) := by
+  induction h generalizing a a' seen with
+  | nil => simpa [run, norepFrom, allIds] using hsame
+  | cons b h ih =>
+    have hgb := hg b (by simp)
+    have hb' : b.filter (fun m => decide (m.id ∉ seen)) = kept a b := by
+      unfold kept
+      apply List.filter_congr
+      intro m _
+      simp [hseen m.id]
+    have hdoc' : docIds a' = docIds a := by unfold docIds; rw [hsame.1]
+    have hk' : kept a' (kept a b) = kept a b := by
+      unfold kept
+      rw [hdoc', List.filter_filter]
+      apply List.filter_congr
+      intro m _
+      simp
+    obtain ⟨e1, e2, e3, e4, e5, e6, -, e8⟩ := indexBulk_specN a b hA hgb
+    obtain ⟨f1, f2, f3, f4, f5, f6, -, f8⟩ := indexBulk_specN a' (kept a b) hA' (bulkOK_kept a b hgb)
+    rw [hk'] at f1 f2 f3 f4 f5
+    obtain ⟨s1, s2, s3, s4, s5, s6⟩ := hsame
+    have hsame' : Same (indexBulk a b) (indexBulk a' (kept a b)) := by
+      refine ⟨by rw [e1, f1, s1], ?_, by rw [e3, f3, s3], by rw [e4, f4, s4], by rw [e5, f5, s5], by rw [e6, f6]; simp [s6]⟩
+      intro t
+      rw [e2 t, f2 t, s2 t, s1]
+    have hdoc : docIds (indexBulk a b) = docIds a ++ (kept a b).map (·.id) := by
+      show (indexBulk a b).ids.drop 1 = _
+      rw [e1, docIds_append a _ hA.ids1]
+    have hseen' : ∀ id, id ∈ seen ++ b.map (·.id) ↔ id ∈ docIds (indexBulk a b) := by
+      intro id
+      rw [hdoc]
+      simp only [List.mem_append, hseen id, kept, List.mem_map, List.mem_filter, decide_eq_true_eq]
+      constructor
+      · rintro (h1 | ⟨m, hm, rfl⟩)
+        · exact Or.inl h1
+        · by_cases hn : m.id ∈ docIds a
+          · exact Or.inl hn
+          · exact Or.inr ⟨m, ⟨hm, hn⟩, rfl⟩
+      · rintro (h1 | ⟨m, ⟨hm, -⟩, rfl⟩)
+        · exact Or.inl h1
+        · exact Or.inr ⟨m, hm, rfl⟩
+    obtain ⟨i1, i2⟩ := ih (indexBulk a b) (indexBulk a' (kept a b)) (seen ++ b.map (·.id)) e8 f8 hsame' hseen'
+      (fun b' hb' => hg b' (List.mem_cons_of_mem _ hb'))
+    simp only [run, norepFrom, List.foldl_cons, hb'] at i1 i2 ⊢
+    refine ⟨i1, ?_⟩
+    rw [i2, hdoc, List.append_assoc]
+    simp [allIds]
+
+theorem goodBulks_of_distinct (h : List (List Meta)) (hd : DistinctBulks h) (hs : NonEmptyDocs h) : GoodBulks h :=
+  fun b hb => bulkOK_of_distinct b (hd b hb) (hs b hb)
 
 /-! ## fetch -/
 
